@@ -337,3 +337,5 @@ func snapDigest(s snapshot) string {
 	}
 	return b.String()
 }
+
+func os_verbose() bool { return os.Getenv("VERIF_VERBOSE") != "" }
